@@ -27,9 +27,13 @@ PathFrom(f, codes, prefix) ==
      ELSE PathFrom(f[i].kids, Tail(codes), Append(prefix, i))])
 Path(f, codes) == PathFrom(f, codes, <<>>)
 
+\* a name given together with a vendor id resolves only if the message's dictionary defines that name for
+\* that vendor (qv = -1: any vendor; dv = the vendor the dictionary defines the name for)
+Resolves(q) == q.qv = -1 \/ q.qv = q.dv
 \* what a query must return: [res, err]
 Want(f, q) ==
-  CASE q.mode = "first" -> LET a == All(f, q.codes[1]) IN
+  CASE ~Resolves(q) -> [res |-> <<>>, err |-> TRUE]
+    [] q.mode = "first" -> LET a == All(f, q.codes[1]) IN
                            IF a = <<>> THEN [res |-> <<>>, err |-> TRUE] ELSE [res |-> <<a[1]>>, err |-> FALSE]
     [] q.mode = "all"   -> LET a == All(f, q.codes[1]) IN [res |-> a, err |-> a = <<>>]
     [] q.mode = "path"  -> [res |-> Path(f, q.codes), err |-> FALSE]
